@@ -45,8 +45,8 @@ Lemma TInv_set_form_elem s f :
   TInv s -> (forall x, f = Some x -> known s x /\ ename_of s x = (ns_html, nm "form")) -> TInv (set_form_elem f s).
 Proof.
   intros [I1 I2 I3 I4 I5 I6 I7 I8 I9 I10 I11] F. constructor; try assumption.
-  - destruct I2 as [A B]. split; [|exact B]. unfold handles_of in *. cbn [open_elems active_formatting head_elem form_elem context_elem set_form_elem].
-    inversion A as [|x l A0 A1]; subst. constructor; [exact A0|].
+  - destruct I2 as [A B]. split; [|exact B]. unfold state_handles in *. cbn [open_elems active_formatting head_elem form_elem context_elem set_form_elem].
+    pose proof A as A1.
     apply Forall_app in A1. destruct A1 as [A1 A2]. apply Forall_app in A2. destruct A2 as [A2 A3].
     apply Forall_app in A3. destruct A3 as [A3 A4]. apply Forall_app in A4. destruct A4 as [_ A5].
     repeat (apply Forall_app; split); try assumption.
@@ -100,22 +100,26 @@ Context (ih it self : body).
 Lemma ib_3_ok s t : TInv s -> late s -> wp (ib_arm_3 ih it self t) is_done s.
 Proof.
   intros I L. unfold ib_arm_3. rewrite wp_bind, wp_parse_error, wp_bind, wp_get, wp_bind.
-  set (s1 := set_out _ s). assert (I1 : TInv s1) by (eapply TInv_core_eq; [apply core_eq_set_out | exact I]).
+  set (s1 := set_out _ s). assert (I1 : TInv s1) by (eapply TInv_core_eq; [(apply core_eq_set_out; reflexivity) | exact I]).
   destruct (negb (in_html_elem_named s1 (nm "template"))).
   - rewrite wp_bind, wp_unwrap. destruct (TInv_stack_nonempty _ I1 L) as (r & rest & Er & _).
     exists r. split; [rewrite Er; reflexivity|]. rewrite wp_emit, wp_ret. split; [|reflexivity].
-    eapply TInv_core_eq; [apply core_eq_set_out | exact I1].
+    apply TInv_emit; [exact I1 | reflexivity | reflexivity |]. cbn [op_okb]. apply known_v_elem.
+    eapply TInv_stack_known; [exact I1 | rewrite Er; left; reflexivity].
   - rewrite wp_ret, wp_ret. split; [exact I1 | reflexivity].
 Qed.
 
 Lemma ib_5_ok s t : TInv s -> late s -> wp (ib_arm_5 ih it self t) is_done s.
 Proof.
   intros I L. unfold ib_arm_5. rewrite wp_bind, wp_parse_error, wp_bind, wp_get, wp_bind.
-  set (s1 := set_out _ s). assert (I1 : TInv s1) by (eapply TInv_core_eq; [apply core_eq_set_out | exact I]).
-  apply wp_body_elem. intros b _. destruct b as [node|]; [|rewrite wp_ret; split; [exact I1 | reflexivity]].
+  set (s1 := set_out _ s). assert (I1 : TInv s1) by (eapply TInv_core_eq; [(apply core_eq_set_out; reflexivity) | exact I]).
+  apply wp_body_elem. intros b Hb. destruct b as [node|]; [|rewrite wp_ret; split; [exact I1 | reflexivity]].
+  destruct (Hb node eq_refl) as [Enode _].
+  assert (Knode : known s1 node) by (eapply TInv_stack_known; [exact I1 | eapply nth_error_In; exact Enode]).
   destruct (negb _ && negb _).
   - unfold set_frameset_not_ok. rewrite wp_bind, wp_modify, wp_bind, wp_emit, wp_ret. split; [|reflexivity].
-    eapply TInv_core_eq; [apply core_eq_set_out|]. eapply TInv_core_eq; [apply core_eq_set_frameset_ok | exact I1].
+    apply TInv_emit; [eapply TInv_core_eq; [apply core_eq_set_frameset_ok | exact I1] | reflexivity | reflexivity |].
+    cbn [op_okb]. exact (known_v_elem _ _ Knode).
   - rewrite wp_ret. split; [exact I1 | reflexivity].
 Qed.
 
@@ -124,13 +128,15 @@ Lemma ib_6_ok s t : TInv s -> late s -> saving_mode (mode s) = false ->
   wp (ib_arm_6 ih it self t) is_done s.
 Proof.
   intros I L NS N0 N1 N2. unfold ib_arm_6. rewrite wp_bind, wp_parse_error, wp_bind, wp_get.
-  set (s1 := set_out _ s). assert (I1 : TInv s1) by (eapply TInv_core_eq; [apply core_eq_set_out | exact I]).
-  assert (K1 : keeps s s1) by (apply keeps_set_out; apply keeps_refl; exact I).
+  set (s1 := set_out _ s). assert (I1 : TInv s1) by (eapply TInv_core_eq; [(apply core_eq_set_out; reflexivity) | exact I]).
+  assert (K1 : keeps s s1) by ((apply keeps_set_out; [|reflexivity]); apply keeps_refl; exact I).
   destruct (negb (frameset_ok s1)); [rewrite wp_ret; split; [exact I1 | reflexivity]|].
-  rewrite wp_bind. apply wp_body_elem. intros b _. destruct b as [body|]; [|rewrite wp_ret; split; [exact I1 | reflexivity]].
+  rewrite wp_bind. apply wp_body_elem. intros b Hb. destruct b as [body|]; [|rewrite wp_ret; split; [exact I1 | reflexivity]].
+  destruct (Hb body eq_refl) as [Ebody _].
+  assert (Kbody : known s1 body) by (eapply TInv_stack_known; [exact I1 | eapply nth_error_In; exact Ebody]).
   rewrite wp_bind, wp_emit, wp_bind, wp_modify, wp_bind. unfold insert_element_for.
   eapply (wp_insert_element_std s).
-  - apply keeps_truncate; [apply keeps_set_out; exact K1 | exact L | lia].
+  - apply keeps_truncate; [apply keeps_emit; [exact K1 | reflexivity | reflexivity | cbn [op_okb]; exact (known_v_known _ _ Kbody)] | exact L | lia].
   - exact L.
   - exact N1.
   - exact N2.
@@ -143,7 +149,7 @@ Proof.
   destruct (in_scope_named s default_scope (nm "body")).
   - rewrite wp_bind. eapply (wp_check_body_end s); [apply keeps_refl; exact I|]. intros s1 K1 _.
     apply (wp_set_mode_done s); [exact K1 | exact L | exact NS | reflexivity | reflexivity | reflexivity].
-  - rewrite wp_bind, wp_parse_error, wp_ret. split; [eapply TInv_core_eq; [apply core_eq_set_out | exact I] | reflexivity].
+  - rewrite wp_bind, wp_parse_error, wp_ret. split; [eapply TInv_core_eq; [(apply core_eq_set_out; reflexivity) | exact I] | reflexivity].
 Qed.
 
 Lemma ib_9_ok s t : TInv s -> late s -> saving_mode (mode s) = false -> is_chars t = false ->
@@ -154,7 +160,7 @@ Proof.
   - rewrite wp_bind. eapply (wp_check_body_end s); [apply keeps_refl; exact I|]. intros s1 K1 _. rewrite wp_ret.
     split; [|apply res_ok_reprocess]. split; [|discriminate]. pose proof K1 as [I1 S1].
     apply (keeps_set_mode s); [exact K1 | eapply keeps_late; eassumption | rewrite (st_mode _ _ S1); exact NS | reflexivity | reflexivity | discriminate].
-  - rewrite wp_bind, wp_parse_error, wp_ret. apply is_done_post. split; [eapply TInv_core_eq; [apply core_eq_set_out | exact I] | reflexivity].
+  - rewrite wp_bind, wp_parse_error, wp_ret. apply is_done_post. split; [eapply TInv_core_eq; [(apply core_eq_set_out; reflexivity) | exact I] | reflexivity].
 Qed.
 
 (* close a p element, insert an element for the token *)
@@ -185,7 +191,7 @@ Proof.
   destruct (in_set heading_tag (ename_of s1 h)) eqn:Hh.
   - rewrite wp_bind, wp_parse_error, wp_bind.
     eapply (wp_pop_current_not_root s).
-    + apply keeps_set_out. exact K1.
+    + (apply keeps_set_out; [|reflexivity]). exact K1.
     + exact L1.
     + exists h. split; [exact V|]. intro X. change (ename_of s1 h = html_html) in X. rewrite X in Hh. discriminate.
     + intros e s2 K2 _. rewrite wp_ret. apply Ins. exact K2.
@@ -214,7 +220,7 @@ Lemma ib_14_ok s t : TInv s -> late s -> tname t = nm "form" -> wp (ib_arm_14 ih
 Proof.
   intros I L N. unfold ib_arm_14. rewrite wp_bind, wp_get.
   destruct ((match form_elem s with Some _ => true | None => false end) && negb (in_html_elem_named s (nm "template"))).
-  { rewrite wp_bind, wp_parse_error, wp_ret. split; [eapply TInv_core_eq; [apply core_eq_set_out | exact I] | reflexivity]. }
+  { rewrite wp_bind, wp_parse_error, wp_ret. split; [eapply TInv_core_eq; [(apply core_eq_set_out; reflexivity) | exact I] | reflexivity]. }
   rewrite wp_bind.
   eapply (wp_close_p_element_in_button_scope s); [apply keeps_refl; exact I | exact L |].
   intros s1 K1 _. rewrite wp_bind. unfold insert_element_for. unfold tname in N.
@@ -301,7 +307,7 @@ Proof.
     split; [|reflexivity]. apply (keeps_TInv s). apply keeps_set_frameset_ok. exact K4. }
   destruct (in_scope_named s default_scope (nm "button")) eqn:Sc.
   - apply in_scope_named_In in Sc. rewrite wp_bind, wp_parse_error, wp_bind.
-    eapply (wp_generate_implied_end_tags s); [apply keeps_set_out; apply keeps_refl; exact I | exact L | apply cursory_html |].
+    eapply (wp_generate_implied_end_tags s); [(apply keeps_set_out; [|reflexivity]); apply keeps_refl; exact I | exact L | apply cursory_html |].
     intros s1 K1 Sh1 Keep. rewrite wp_bind.
     destruct Sc as (x & Hin & Hx).
     eapply (wp_pop_until_named s); [exact K1 | eapply keeps_late; eassumption | apply button_not_html | |].
@@ -319,7 +325,7 @@ Lemma ib_end_block_ok s t : TInv s -> late s ->
 Proof.
   intros I L N0 Nc. unfold ib_end_block. rewrite wp_bind, wp_get.
   destruct (negb (in_scope_named s default_scope (tname t))) eqn:Sc.
-  { apply wp_unexpected. split; [eapply TInv_core_eq; [apply core_eq_set_out | exact I] | reflexivity]. }
+  { apply wp_unexpected. split; [eapply TInv_core_eq; [(apply core_eq_set_out; reflexivity) | exact I] | reflexivity]. }
   apply negb_false_iff in Sc. apply in_scope_named_In in Sc.
   rewrite wp_assoc, wp_bind.
   eapply (wp_implied_then_close s); [apply keeps_refl; exact I | exact L | apply cursory_html | exact Nc | exact N0 | exact Sc |].
@@ -339,14 +345,16 @@ Proof.
   apply rposition_some in Ep. destruct Ep as (y & Ey & Sy). unfold same_node in Sy. apply Nat.eqb_eq in Sy. subst y.
   pose proof K as [I S]. destruct (TInv_stack_nonempty _ I L) as (r & rest & Est & Nr).
   assert (Lp : 1 <= p) by (eapply named_not_root; eassumption).
-  rewrite wp_bind, wp_modify, wp_emit. apply H. apply keeps_set_out. apply keeps_vremove_stack; assumption.
+  rewrite wp_bind, wp_modify, wp_emit. apply H.
+  apply keeps_emit; [apply keeps_vremove_stack; assumption | reflexivity | reflexivity |]. cbn [op_okb].
+  apply known_v_elem. change (known s node). eapply TInv_stack_known; [exact I | eapply nth_error_In; exact Ey].
 Qed.
 
 Lemma ib_form_end_ok s t : TInv s -> late s -> wp (ib_form_end t) is_done s.
 Proof.
   intros I L. unfold ib_form_end. rewrite wp_bind, wp_get.
   assert (Err : forall s1, TInv s1 -> wp (parse_error ;; ret Done) is_done s1).
-  { intros s1 I1. rewrite wp_bind, wp_parse_error, wp_ret. split; [eapply TInv_core_eq; [apply core_eq_set_out | exact I1] | reflexivity]. }
+  { intros s1 I1. rewrite wp_bind, wp_parse_error, wp_ret. split; [eapply TInv_core_eq; [(apply core_eq_set_out; reflexivity) | exact I1] | reflexivity]. }
   destruct (negb (in_html_elem_named s (nm "template"))).
   - destruct (form_elem s) as [node|] eqn:Ef; [|apply Err; exact I].
     rewrite wp_bind, wp_modify.
@@ -362,7 +370,7 @@ Proof.
     assert (Kn : known s1 node) by exact (known_handles_in s node (inv_known _ I) (in_handles_form _ _ Ef)).
     eapply (wp_remove_from_stack_named s1); [exact K2 | exact L2 | rewrite (keeps_name _ _ _ K2 Kn); exact Nn | apply form_not_html |].
     intros s3 K3. rewrite wp_bind, wp_when. destruct (negb (same_node cur node)).
-    + rewrite wp_parse_error, wp_ret. split; [|reflexivity]. apply (keeps_TInv s1). apply keeps_set_out. exact K3.
+    + rewrite wp_parse_error, wp_ret. split; [|reflexivity]. apply (keeps_TInv s1). (apply keeps_set_out; [|reflexivity]). exact K3.
     + rewrite wp_ret. split; [exact (keeps_TInv _ _ K3) | reflexivity].
   - destruct (negb (in_scope_named s default_scope (nm "form"))) eqn:Sc; [apply Err; exact I|].
     apply negb_false_iff in Sc. apply in_scope_named_In in Sc. destruct Sc as (x & Hin & Hx).
@@ -378,7 +386,7 @@ Proof.
         rewrite (keeps_name _ _ _ K2); [exact Hx | eapply TInv_stack_known; eassumption].
       - intros n s3 K3 _. rewrite wp_ret. split; [exact (keeps_TInv _ _ K3) | reflexivity]. }
     rewrite wp_when. destruct (negb _).
-    + rewrite wp_parse_error. apply Fin; [apply keeps_set_out; exact K1 | reflexivity].
+    + rewrite wp_parse_error. apply Fin; [(apply keeps_set_out; [|reflexivity]); exact K1 | reflexivity].
     + apply Fin; [exact K1 | reflexivity].
 Qed.
 
@@ -389,10 +397,15 @@ Proof.
   intros I L N. unfold ib_arm_20. rewrite wp_bind, wp_get, wp_bind.
   eapply (wp_process_end_tag_in_body s); [apply keeps_refl; exact I | exact L | exact N |].
   intros s1 K1. rewrite wp_bind.
-  destruct (find _ (open_elems s)) as [o|].
+  destruct (find _ (open_elems s)) as [o|] eqn:Ef.
   - rewrite wp_bind, wp_get. destruct (negb _).
     + rewrite wp_bind. apply wp_probe. rewrite wp_emit, wp_ret. split; [|reflexivity].
-      apply (keeps_TInv s). apply keeps_set_out. apply keeps_set_out. exact K1.
+      apply find_some in Ef. destruct Ef as [Ino No].
+      assert (Ko : known s o) by (eapply TInv_stack_known; eassumption).
+      apply (keeps_TInv s). apply keeps_emit; [(apply keeps_set_out; [|reflexivity]); exact K1 | reflexivity | reflexivity |].
+      cbn [op_okb]. change (sv (set_out (EvArm 30 51 :: out s1) s1)) with (sv s1).
+      rewrite (v_named_ename s1 o _ (stable_known _ _ _ (proj2 K1) Ko)), (stable_ename _ _ _ (proj2 K1) Ko).
+      rewrite (named_ename _ _ _ No). reflexivity.
     + rewrite wp_ret, wp_ret. split; [exact (keeps_TInv _ _ K1) | reflexivity].
   - rewrite wp_ret, wp_ret. split; [exact (keeps_TInv _ _ K1) | reflexivity].
 Qed.
@@ -406,7 +419,7 @@ Proof.
     intros s2 K2 _. rewrite wp_ret. split; [exact (keeps_TInv _ _ K2) | reflexivity]. }
   destruct (negb (in_scope_named s button_scope (nm "p"))) eqn:Sc.
   - rewrite wp_bind, wp_parse_error, wp_bind. unfold insert_phantom.
-    eapply (wp_insert_element_std s); [apply keeps_set_out; apply keeps_refl; exact I | exact L | discriminate | discriminate |].
+    eapply (wp_insert_element_std s); [(apply keeps_set_out; [|reflexivity]); apply keeps_refl; exact I | exact L | discriminate | discriminate |].
     intros h s1 K1 E1 _ Kn En. rewrite wp_ret. apply Fin; [exact K1|].
     exists h. split; [rewrite E1; unfold vpush; apply in_or_app; right; left; reflexivity | exact En].
   - apply negb_false_iff in Sc. apply in_scope_named_In in Sc. rewrite wp_ret. apply Fin; [apply keeps_refl; exact I | exact Sc].
@@ -422,7 +435,7 @@ Proof.
     rewrite wp_assoc, wp_bind.
     eapply (wp_implied_then_close s); [apply keeps_refl; exact I | exact L | apply implied_except_html | apply implied_except_self | exact N | exact X |].
     intros s1 K1 _. rewrite wp_ret. split; [exact (keeps_TInv _ _ K1) | reflexivity].
-  - rewrite wp_bind, wp_parse_error, wp_ret. split; [eapply TInv_core_eq; [apply core_eq_set_out | exact I] | reflexivity].
+  - rewrite wp_bind, wp_parse_error, wp_ret. split; [eapply TInv_core_eq; [(apply core_eq_set_out; reflexivity) | exact I] | reflexivity].
 Qed.
 
 Lemma heading_html : in_set heading_tag html_html = false. Proof. reflexivity. Qed.
@@ -447,9 +460,9 @@ Proof.
         rewrite (keeps_name _ _ _ K2); [exact Hx | eapply TInv_stack_known; eassumption].
       - intros n s3 K3 _. rewrite wp_ret. split; [exact (keeps_TInv _ _ K3) | reflexivity]. }
     rewrite wp_when. destruct (negb _).
-    + rewrite wp_parse_error. apply Fin; [apply keeps_set_out; exact K1 | reflexivity].
+    + rewrite wp_parse_error. apply Fin; [(apply keeps_set_out; [|reflexivity]); exact K1 | reflexivity].
     + apply Fin; [exact K1 | reflexivity].
-  - rewrite wp_bind, wp_parse_error, wp_ret. split; [eapply TInv_core_eq; [apply core_eq_set_out | exact I] | reflexivity].
+  - rewrite wp_bind, wp_parse_error, wp_ret. split; [eapply TInv_core_eq; [(apply core_eq_set_out; reflexivity) | exact I] | reflexivity].
 Qed.
 End Arms3.
 
@@ -483,7 +496,7 @@ Proof.
     intros h s3 K3. rewrite wp_ret. split; [exact (keeps_TInv _ _ K3) | reflexivity]. }
   destruct (in_scope_named s1 default_scope (nm "nobr")).
   - rewrite wp_bind, wp_parse_error, wp_bind.
-    eapply (wp_adoption_agency s); [apply keeps_set_out; exact K1 | exact (keeps_late _ _ K1 L) | reflexivity |].
+    eapply (wp_adoption_agency s); [(apply keeps_set_out; [|reflexivity]); exact K1 | exact (keeps_late _ _ K1 L) | reflexivity |].
     intros s2 K2. eapply (wp_reconstruct s); [exact K2 | eapply keeps_late; eassumption |]. intros s3 K3. apply Fin. exact K3.
   - rewrite wp_ret. apply Fin. exact K1.
 Qed.
@@ -514,7 +527,7 @@ Lemma ib_29_ok s t : TInv s -> late s ->
 Proof.
   intros I L N0 Nc. unfold ib_arm_29. rewrite wp_bind, wp_get.
   destruct (negb (in_scope_named s default_scope (tname t))) eqn:Sc.
-  { apply wp_unexpected. split; [eapply TInv_core_eq; [apply core_eq_set_out | exact I] | reflexivity]. }
+  { apply wp_unexpected. split; [eapply TInv_core_eq; [(apply core_eq_set_out; reflexivity) | exact I] | reflexivity]. }
   apply negb_false_iff in Sc. apply in_scope_named_In in Sc.
   rewrite wp_assoc, wp_bind.
   eapply (wp_implied_then_close s); [apply keeps_refl; exact I | exact L | apply cursory_html | exact Nc | exact N0 | exact Sc |].
@@ -577,7 +590,7 @@ Proof.
     destruct (in_scope_named s default_scope (nm "select")) eqn:Sc.
     - apply in_scope_named_In in Sc. destruct Sc as (x & Hin & Hx).
       rewrite wp_bind, wp_parse_error, wp_bind.
-      eapply (wp_pop_until_named s); [apply keeps_set_out; exact K1 | exact (keeps_late _ _ K1 L) | apply select_not_html | |].
+      eapply (wp_pop_until_named s); [(apply keeps_set_out; [|reflexivity]); exact K1 | exact (keeps_late _ _ K1 L) | apply select_not_html | |].
       + exists x. split; [cbn [open_elems set_out]; rewrite E1; exact Hin|].
         change (ename_of s1 x = (ns_html, nm "select")). rewrite (keeps_name _ _ _ K1); [exact Hx | eapply TInv_stack_known; eassumption].
       + intros n s2 K2 _. rewrite wp_ret. apply Fin. exact K2.
@@ -585,7 +598,7 @@ Proof.
   destruct (is_fragment s) eqn:Fr.
   - rewrite wp_bind, wp_unwrap. unfold is_fragment in Fr. destruct (context_elem s) as [c|]; [|discriminate].
     exists c. split; [reflexivity|]. rewrite wp_when. destruct (named s c "select").
-    + rewrite wp_parse_error. apply Step2; [apply keeps_set_out; apply keeps_refl; exact I | reflexivity].
+    + rewrite wp_parse_error. apply Step2; [(apply keeps_set_out; [|reflexivity]); apply keeps_refl; exact I | reflexivity].
     + apply Step2; [apply keeps_refl; exact I | reflexivity].
   - rewrite wp_ret. apply Step2; [apply keeps_refl; exact I | reflexivity].
 Qed.
@@ -616,7 +629,7 @@ Proof.
   - rewrite wp_bind.
     eapply (wp_generate_implied_end_tags s); [exact K1 | eapply keeps_late; eassumption | apply cursory_html |].
     intros s2 K2 _ _. rewrite wp_bind, wp_get, wp_when. destruct (_ || _).
-    + rewrite wp_parse_error. apply Fin. apply keeps_set_out. exact K2.
+    + rewrite wp_parse_error. apply Fin. (apply keeps_set_out; [|reflexivity]). exact K2.
     + apply Fin. exact K2.
   - rewrite wp_ret. apply Fin. exact K1.
 Qed.
@@ -678,10 +691,10 @@ Proof.
     - rewrite wp_bind, wp_unwrap. exists c. split; [reflexivity|]. rewrite wp_ret. apply HQ.
     - rewrite wp_ret. apply HQ. }
   apply X. intros [|].
-  - rewrite wp_bind, wp_parse_error, wp_ret. split; [eapply TInv_core_eq; [apply core_eq_set_out | exact I] | reflexivity].
+  - rewrite wp_bind, wp_parse_error, wp_ret. split; [eapply TInv_core_eq; [(apply core_eq_set_out; reflexivity) | exact I] | reflexivity].
   - destruct (in_scope_named s default_scope (nm "select")) eqn:Sc.
     + apply in_scope_named_In in Sc. rewrite wp_bind, wp_parse_error, wp_bind.
-      eapply (wp_pop_until_named s); [apply keeps_set_out; apply keeps_refl; exact I | exact L | apply select_not_html | exact Sc |].
+      eapply (wp_pop_until_named s); [(apply keeps_set_out; [|reflexivity]); apply keeps_refl; exact I | exact L | apply select_not_html | exact Sc |].
       intros n s1 K1 _. rewrite wp_ret. split; [exact (keeps_TInv _ _ K1) | reflexivity].
     + rewrite wp_bind.
       eapply (wp_reconstruct s); [apply keeps_refl; exact I | exact L |]. intros s1 K1. rewrite wp_bind. unfold insert_element_for.
@@ -725,7 +738,7 @@ Proof.
     eapply (wp_generate_implied_end_tags s); [apply keeps_refl; exact I | exact L | apply implied_except_html |].
     intros s1 K1 _ _. rewrite wp_bind, wp_get, wp_when.
     destruct (in_scope_named s1 default_scope (nm "option")).
-    + rewrite wp_parse_error. apply (recon_insert_ok s); [apply keeps_set_out; exact K1 | exact (keeps_late _ _ K1 L) | exact N1 | exact N2].
+    + rewrite wp_parse_error. apply (recon_insert_ok s); [(apply keeps_set_out; [|reflexivity]); exact K1 | exact (keeps_late _ _ K1 L) | exact N1 | exact N2].
     + apply (recon_insert_ok s); [exact K1 | exact (keeps_late _ _ K1 L) | exact N1 | exact N2].
   - eapply (wp_pop_if_option s); [apply keeps_refl; exact I | exact L |]. intros s1 K1.
     apply (recon_insert_ok s); [exact K1 | exact (keeps_late _ _ K1 L) | exact N1 | exact N2].
@@ -741,7 +754,7 @@ Proof.
     eapply (wp_generate_implied_end_tags s); [apply keeps_refl; exact I | exact L | apply cursory_html |].
     intros s1 K1 _ _. rewrite wp_bind, wp_get, wp_when.
     destruct (_ || _).
-    + rewrite wp_parse_error. apply (recon_insert_ok s); [apply keeps_set_out; exact K1 | exact (keeps_late _ _ K1 L) | exact N1 | exact N2].
+    + rewrite wp_parse_error. apply (recon_insert_ok s); [(apply keeps_set_out; [|reflexivity]); exact K1 | exact (keeps_late _ _ K1 L) | exact N1 | exact N2].
     + apply (recon_insert_ok s); [exact K1 | exact (keeps_late _ _ K1 L) | exact N1 | exact N2].
   - eapply (wp_pop_if_option s); [apply keeps_refl; exact I | exact L |]. intros s1 K1.
     apply (recon_insert_ok s); [exact K1 | exact (keeps_late _ _ K1 L) | exact N1 | exact N2].
@@ -767,7 +780,7 @@ Proof.
     rewrite wp_bind. unfold current_node_named. rewrite wp_bind.
     apply wp_current_node; [exact I1 | exact L1 |]. intros cur V. rewrite wp_bind, wp_get, wp_ret, wp_bind, wp_when.
     destruct (negb _).
-    - rewrite wp_parse_error. apply (insert_done_ok s); [apply keeps_set_out; exact K1 | exact L1 | exact N1 | exact N2].
+    - rewrite wp_parse_error. apply (insert_done_ok s); [(apply keeps_set_out; [|reflexivity]); exact K1 | exact L1 | exact N1 | exact N2].
     - apply (insert_done_ok s); [exact K1 | exact L1 | exact N1 | exact N2]. }
   destruct (in_scope_named s default_scope (nm "ruby")).
   - eapply (wp_generate_implied_end_tags s); [apply keeps_refl; exact I | exact L | apply cursory_html |]. intros s1 K1 _ _. apply Fin. exact K1.
@@ -788,7 +801,7 @@ Proof.
     unfold current_node_named. rewrite wp_bind.
     apply wp_current_node; [exact I1 | exact L1 |]. intros cur2 V2. rewrite wp_bind, wp_get, wp_ret, wp_bind, wp_when.
     destruct (_ && _).
-    - rewrite wp_parse_error. apply (insert_done_ok s); [apply keeps_set_out; exact K1 | exact L1 | exact N1 | exact N2].
+    - rewrite wp_parse_error. apply (insert_done_ok s); [(apply keeps_set_out; [|reflexivity]); exact K1 | exact L1 | exact N1 | exact N2].
     - apply (insert_done_ok s); [exact K1 | exact L1 | exact N1 | exact N2]. }
   destruct (in_scope_named s default_scope (nm "ruby")).
   - unfold generate_implied_end_except.
@@ -1529,7 +1542,7 @@ Proof.
     exact (forallb_nth_in (fun k => forallb atom_not_chars (nth k heads_in_body [])) [0; 2; 7] 31 FN Hk). }
   destruct (head_named_prop _ _ _ F31 Hm) as (g & -> & Nbr). apply is_n_eq in Nbr.
     unfold ib_arm_31. rewrite wp_bind, wp_parse_error. cbn [tk_tag].
-    eapply wp_mono; [apply HSelf; [eapply TInv_core_eq; [apply core_eq_set_out | exact I1] | exact L1 | apply NSof; reflexivity | constructor | reflexivity | left; exact Nbr]|].
+    eapply wp_mono; [apply HSelf; [eapply TInv_core_eq; [(apply core_eq_set_out; reflexivity) | exact I1] | exact L1 | apply NSof; reflexivity | constructor | reflexivity | left; exact Nbr]|].
     intros r s' P. apply TagFin; [reflexivity | exact P].
 Qed.
 
@@ -1628,7 +1641,7 @@ Proof.
   destruct (head_named_prop _ _ _ F36n Hm) as (g & -> & Nim).
     pose proof (head_all_start _ _ F36 Hm) as St.
     unfold ib_arm_36. rewrite wp_bind, wp_parse_error.
-    eapply wp_mono; [apply HSelf; [eapply TInv_core_eq; [apply core_eq_set_out | exact I1] | exact L1 | apply NSof; reflexivity | exact Sc | exact St | right; reflexivity]|].
+    eapply wp_mono; [apply HSelf; [eapply TInv_core_eq; [(apply core_eq_set_out; reflexivity) | exact I1] | exact L1 | apply NSof; reflexivity | exact Sc | exact St | right; reflexivity]|].
     intros r s' P. apply TagFin; [reflexivity | exact P].
 Qed.
 
@@ -1970,7 +1983,7 @@ Proof.
   intros CB s t I L NSC Sc. unfold step_in_body_gen.
   eapply (wp_dispatch_specs _ _ _ ib_arm_spec); [apply total_in_body | apply (aligned_all ih it self) | apply in_body_specs; exact CB |].
   intros k b Sp Ek Hm Hn. apply Sp; try assumption.
-  eapply TInv_core_eq; [apply core_eq_set_out | exact I].
+  eapply TInv_core_eq; [(apply core_eq_set_out; reflexivity) | exact I].
 Qed.
 
 (* ---------- "in template" ---------- *)
@@ -2044,7 +2057,7 @@ Proof.
     apply negb_false_iff in Neg. unfold in_html_elem_named in Neg. apply existsb_exists in Neg. destruct Neg as (x & Hin & Hx).
     apply ename_eqb_eq in Hx.
     rewrite wp_bind, wp_parse_error, wp_bind. unfold pop_until_named.
-    set (s2 := set_out _ s1). assert (I2 : TInv s2) by (eapply TInv_core_eq; [apply core_eq_set_out | exact I1]).
+    set (s2 := set_out _ s1). assert (I2 : TInv s2) by (eapply TInv_core_eq; [(apply core_eq_set_out; reflexivity) | exact I1]).
     eapply (wp_pop_until_strong s2); [apply keeps_refl; exact I2 | exact L1 | reflexivity | |].
     { exists x. split; [exact Hin|]. change (ename_eqb (ename_of s1 x) (ns_html, nm "template") = true). rewrite Hx. apply ename_eqb_refl. }
     intros n s3 K3 _ (k & e & Lk & E3 & Ee & Pe). pose proof K3 as [I3 S3].
